@@ -130,6 +130,12 @@ fn lexical_wellformed(files: &BTreeMap<String, String>) -> Result<String, String
                 '(' | '[' | '{' => stack.push((c, line)),
                 ')' | ']' | '}' => { let want = match c { ')' => '(', ']' => '[', _ => '{' }; match stack.pop() { Some((o, _)) if o == want => {}, other => return Err(format!("{}:{} unbalanced `{}` (open: {:?})", f, line, c, other)) } }
                 ':' if cs.get(i + 1) == Some(&':') => return Err(format!("{}:{} Rust path syntax `::` leaked", f, line)),
+                '#' if i >= 1 && cs[i - 1] == 'r' && (i < 2 || !(cs[i - 2].is_alphanumeric() || cs[i - 2] == '_')) && cs.get(i + 1).map_or(false, |c| c.is_alphabetic() || *c == '_') => return Err(format!("{}:{} a raw-identifier prefix `r#` leaked", f, line)),
+                '=' if cs.get(i + 1) != Some(&'=') && cs.get(i + 1) != Some(&'>') && i >= 1 && !"=!<>+-*/%&|^".contains(cs[i - 1]) => {
+                    // an assignment or alias needs a right-hand side
+                    let mut k = i + 1; while k < cs.len() && (cs[k] == ' ' || cs[k] == '\t') { k += 1; }
+                    if k < cs.len() && (cs[k] == ';' || cs[k] == '\n') && cs.get(k + 1).map_or(true, |_| true) && cs[k] == ';' { return Err(format!("{}:{} a declaration without a right-hand side (`= ;`)", f, line)); }
+                }
                 '.' if i >= 5 && cs[i - 5..i].iter().collect::<String>() == "types" => {
                     let nx = cs.get(i + 1).copied().unwrap_or(' ');
                     if !(nx.is_alphabetic() || nx == '_' || nx == '$') { return Err(format!("{}:{} `types.` is followed by `{}`, not an identifier", f, line, nx)); }
@@ -440,6 +446,7 @@ fn main() {
         src.push_str("#[tauri::command]\npub fn user_types_named_like_injected(request: Request, channel: Channel2, pane: crate::dto::Window, other: u32) -> u32 { 0 }\n");
         src.push_str("#[tauri::command(rename_all = \"snake_case\")]\npub fn macro_snake(user_name: String, retry_count: u32, on_event: Channel<u32>, app: tauri::AppHandle) -> u32 { 0 }\n#[tauri::command(async, rename_all = \"camelCase\")]\npub fn macro_camel(user_name: String) -> u32 { 0 }\n#[command(rename_all = \"snake_case\")]\npub fn bare_macro_snake(user_name: String) -> u32 { 0 }\n#[tauri::command(async)]\npub fn macro_plain(user_name: String) -> u32 { 0 }\n");
         src.push_str("#[tauri::command(root = \"crate\", rename_all = \"snake_case\")]\npub fn macro_root_first(file_name: String, on_event: Channel<u32>) -> u32 { 0 }\n#[tauri::command(rename_all = \"snake_case\", root = \"crate\")]\npub fn macro_root_last(file_name: String) -> u32 { 0 }\n");
+        src.push_str("#[tauri::command]\npub fn channel_spellings(id: u32, on_a: tauri::ipc::Channel<u32>, on_b: tauri::ipc::Channel, on_c: ipc::Channel<String>) -> u32 { 0 }\n");
         src.push_str("#[tauri::command]\npub fn opt_paths(plain: Option<u32>, std_path: std::option::Option<u32>, core_path: core::option::Option<String>, abs_path: ::std::option::Option<bool>, required: u32) -> u32 { 0 }\n");
         src.push_str("#[tauri::command]\npub fn r#move(first_arg: String, r#type: u32, on_event: Channel<u32>) -> u32 { 0 }\n");
         let dir = root.join("inject/src");
@@ -496,6 +503,15 @@ fn main() {
                 keys.sort();
                 if keys != ["channel", "other", "pane", "request"] { return Err(format!("keys {:?}, expected [channel, other, pane, request]: `Request`, `Channel2` and `dto::Window` are user-defined serde structs, not framework types", keys)); }
                 Ok(format!("{:?}", keys))
+            });
+            rep.case("invoke_keys_in_generated_bindings", &format!("fn channel_spellings(id: u32, on_a: tauri::ipc::Channel<u32>, on_b: tauri::ipc::Channel, on_c: ipc::Channel<String>) mode={}", mode), &|| {
+                let files = generate(&dir, &root.join(format!("inject/out_{}", mode)), mode)?;
+                let t = files.get("types.ts").ok_or("no types.ts")?;
+                // in zod mode the channel keys live in the interface that extends the validated part
+                let block: String = t.split("\n\n").filter(|b| b.contains("ChannelSpellingsParams")).collect::<Vec<_>>().join("\n");
+                if block.is_empty() { return Err("UNPARSED: no declaration of ChannelSpellingsParams".into()); }
+                for k in ["onA", "onB", "onC"] { if !block.contains(&format!("{}:", k)) && !block.contains(&format!("{}?:", k)) { return Err(format!("the argument object of channel_spellings has no key `{}`: every Channel parameter is filled from the frontend", k)); } }
+                Ok("ok".into())
             });
             rep.case("omittable_keys_are_the_option_parameters", &format!("fn opt_paths(plain: Option<u32>, std_path: std::option::Option<u32>, core_path: core::option::Option<String>, abs_path: ::std::option::Option<bool>, required: u32) mode={}", mode), &|| {
                 let files = generate(&dir, &root.join(format!("inject/out_{}", mode)), mode)?;
@@ -782,6 +798,8 @@ fn main() {
             ("n-closure", ""), ("n-async-block-in-call", ""), ("n-unsafe-block", ""), ("n-if-let", ""), ("n-else-if", ""), ("n-while-let", ""), ("n-match-guard", ""), ("n-block-expr", ""), ("n-paren", ""), ("n-async-await", ""),
             ("g-vec-of-param", ""), ("g-opt-of-param", ""), ("g-tuple-of-param", ""), ("l-lifetime-only", ""), ("l-const-only", ""),
             ("d-rest-first", ""), ("d-rest-last", ""), ("d-rest-tail", ""),
+            ("v-unit-variant", ""), ("v-struct-variant", ""), ("v-tuple-variant", ""), ("v-qualified-variant", ""), ("v-assoc-const", ""), ("v-ctor-call", ""), ("v-const", ""), ("v-tuple-literal", ""), ("v-unit-struct-path", ""),
+            ("v-let-struct-variant", ""), ("v-let-tuple-variant", ""), ("v-let-vec-new", ""), ("v-let-map-new", ""), ("v-let-string-new", ""), ("v-let-fn-call", ""),
             ("u-vec-infer", ""), ("u-map-array", ""), ("u-tuple-array", ""), ("u-vec-array", ""),
             ("z-sync-status", ""), ("z-tags", ""), ("t-typed-late-init", ""), ("t-typed-late-init-2", ""), ("s-path-struct", ""), ("s-path-struct-2", ""), ("s-bare-struct", ""),
             ("g-letter-in-name", ""), ("g-letter-in-name-2", ""), ("v-typed-first", ""), ("v-untyped-after-typed", ""),
@@ -832,6 +850,9 @@ fn main() {
             #[derive(Serialize, Clone)]\npub struct LogLine<'a> { pub text: &'a str }\n#[derive(Serialize, Clone)]\npub struct Buffer<const N: usize> { pub used: u32 }\n\
             pub fn borrowed(app: &tauri::AppHandle, line: LogLine<'_>, buf: Buffer<16>) { app.emit(\"l-lifetime-only\", line).ok(); app.emit(\"l-const-only\", buf).ok(); }\n\
             pub fn partly_unprintable(app: &tauri::AppHandle, src: Vec<Player>) { let items: Vec<_> = src.into_iter().collect(); app.emit(\"u-vec-infer\", items).ok(); let m: HashMap<String, [u32; 3]> = HashMap::new(); app.emit(\"u-map-array\", m).ok(); let t: (Player, [u8; 4]) = todo!(); app.emit(\"u-tuple-array\", t).ok(); let v: Vec<[f64; 3]> = vec![]; app.emit(\"u-vec-array\", v).ok(); }\n\
+            #[derive(Serialize, Deserialize, Clone)]\npub enum JobState { Running, Failed { code: u32 }, Done(u32) }\nimpl JobState { pub const IDLE: JobState = JobState::Running; pub fn fresh() -> Self { JobState::Running } }\npub const MAX_RETRIES: u32 = 3;\n#[derive(Serialize, Deserialize, Clone)]\npub struct Beat;\npub mod inner { pub fn load() -> u32 { 0 } }\n\
+            pub fn values(app: &tauri::AppHandle) { app.emit(\"v-unit-variant\", JobState::Running).ok(); app.emit(\"v-struct-variant\", JobState::Failed { code: 1 }).ok(); app.emit(\"v-tuple-variant\", JobState::Done(3)).ok(); app.emit(\"v-qualified-variant\", crate::JobState::Running).ok(); app.emit(\"v-assoc-const\", JobState::IDLE).ok(); app.emit(\"v-ctor-call\", JobState::fresh()).ok(); app.emit(\"v-const\", MAX_RETRIES).ok(); app.emit(\"v-tuple-literal\", (1u32, \"x\")).ok(); app.emit(\"v-unit-struct-path\", crate::Beat).ok();\n\
+                let f = JobState::Failed { code: 2 }; app.emit(\"v-let-struct-variant\", f).ok(); let d = JobState::Done(1); app.emit(\"v-let-tuple-variant\", d).ok(); let v = Vec::new(); app.emit(\"v-let-vec-new\", v).ok(); let m = std::collections::HashMap::new(); app.emit(\"v-let-map-new\", m).ok(); let s = String::new(); app.emit(\"v-let-string-new\", s).ok(); let q = crate::inner::load(); app.emit(\"v-let-fn-call\", q).ok(); }\n\
             pub fn destructured(app: &tauri::AppHandle, pair: (Player, ScanReport), triple: (u8, u16, u32)) { let (first, .., last): (Player, ScanReport) = pair; let (.., tail): (u8, u16, u32) = triple; let (head, ..) = (1u8, 2u8); let [a0, .., a9]: [u8; 4] = [1, 2, 3, 4]; app.emit(\"d-rest-first\", first).ok(); app.emit(\"d-rest-last\", last).ok(); app.emit(\"d-rest-tail\", tail).ok(); let _ = (head, a0, a9); }\n\
             pub fn struct_exprs(app: &tauri::AppHandle) { app.emit(\"s-path-struct\", crate::Player { id: 1 }).ok(); app.emit(\"s-path-struct-2\", self::Player { id: 2 }).ok(); app.emit(\"s-bare-struct\", Player { id: 3 }).ok(); }\n\
             pub fn late_init(app: &tauri::AppHandle, flag: bool) { let status: Player; if flag { status = Player { id: 1 }; } else { status = Player { id: 2 }; } app.emit(\"t-typed-late-init\", status.clone()).ok(); let count: u32; count = 3; app.emit(\"t-typed-late-init-2\", count).ok(); }\n\
@@ -878,6 +899,9 @@ fn main() {
                     ("r-mixed", "unknown"), ("r-repeat", "number"),
                     ("g-letter-in-name", "types.ScanReport"), ("g-letter-in-name-2", "types.Ticket"), ("v-typed-first", "types.Player"), ("v-untyped-after-typed", "unknown"),
                     ("g-vec-of-param", "unknown"), ("g-opt-of-param", "unknown"), ("g-tuple-of-param", "unknown"), ("l-lifetime-only", "types.LogLine || unknown"), ("l-const-only", "types.Buffer || unknown"),
+                    ("v-unit-variant", "types.JobState"), ("v-struct-variant", "types.JobState"), ("v-tuple-variant", "types.JobState || unknown"), ("v-qualified-variant", "types.JobState"), ("v-assoc-const", "unknown || types.JobState"), ("v-ctor-call", "unknown || types.JobState"),
+                    ("v-const", "unknown || number"), ("v-tuple-literal", "unknown || [number, string]"), ("v-unit-struct-path", "types.Beat"),
+                    ("v-let-struct-variant", "types.JobState"), ("v-let-tuple-variant", "types.JobState || unknown"), ("v-let-vec-new", "unknown"), ("v-let-map-new", "unknown"), ("v-let-string-new", "string || unknown"), ("v-let-fn-call", "unknown || number"),
                     ("d-rest-first", "unknown || types.Player"), ("d-rest-last", "unknown || types.ScanReport"), ("d-rest-tail", "unknown || number"),
                     ("u-vec-infer", "unknown"), ("u-map-array", "unknown || Record<string, number[]>"), ("u-tuple-array", "unknown || [types.Player, number[]]"), ("u-vec-array", "unknown || number[][]"),
                     ("s-path-struct", "types.Player"), ("s-path-struct-2", "types.Player"), ("s-bare-struct", "types.Player"),
@@ -1048,6 +1072,8 @@ fn main() {
             #[tauri::command]\npub fn _1st(a: u32) -> u32 {{ a }}\n\
             #[tauri::command]\npub fn __(a: u32) -> u32 {{ a }}\n\
             #[tauri::command]\npub fn _2() -> u32 {{ 0 }}\n\
+            #[tauri::command]\npub fn enum_() -> u32 {{ 0 }}\n#[tauri::command]\npub fn const_() -> u32 {{ 0 }}\n#[tauri::command]\npub fn r#try() -> u32 {{ 0 }}\n#[tauri::command]\npub fn static_() -> u32 {{ 0 }}\n#[tauri::command]\npub fn r#while() -> u32 {{ 0 }}\n#[tauri::command]\npub fn let_() -> u32 {{ 0 }}\n#[tauri::command]\npub fn yield_() -> u32 {{ 0 }}\n#[tauri::command]\npub fn await_() -> u32 {{ 0 }}\n#[tauri::command]\npub fn r#true() -> u32 {{ 0 }}\n#[tauri::command]\npub fn in_() -> u32 {{ 0 }}\n\
+            #[derive(Serialize, Deserialize)]\npub enum Never {{}}\n#[derive(Serialize, Deserialize)]\npub enum AllSkippedVariants {{ #[serde(skip)] Hidden }}\n#[derive(Serialize, Deserialize)]\npub struct Impossible {{ pub n: Option<Never>, pub h: Vec<AllSkippedVariants> }}\n#[tauri::command]\npub fn impossible(i: Impossible) -> u32 {{ 0 }}\n\
             #[derive(Serialize, Deserialize)]\npub struct Category {{ pub name: String, pub children: Vec<Category>, pub parent: Option<SubCategory>, pub all: HashMap<String, Vec<SubCategory>> }}\n\
             #[derive(Serialize, Deserialize)]\npub struct SubCategory {{ pub id: u32 }}\n#[tauri::command]\npub fn categories() -> Vec<Category> {{ vec![] }}\n\
             #[derive(Serialize, Deserialize)]\npub struct Account {{ pub id: u32, token: String, pub(crate) retries: u32, pub(super) zone: Option<String> }}\n\
@@ -1606,6 +1632,22 @@ fn main() {
                 types_module_is_closed(files, &tys)
             });
             rep.case("type_references_resolve", &format!("project=shadowed mode={}", mode), &|| references_resolve(files.as_ref().map_err(|e| e.clone())?, &tys));
+        }
+    }
+    // ============================================================ C01 / C07 / C02: raw identifiers as type names, generic arguments that are only lifetimes or constants
+    {
+        let src = format!("{}#[derive(Serialize, Deserialize)]\npub struct r#Kind {{ pub id: u32 }}\n#[derive(Serialize, Deserialize)]\npub enum r#Mode {{ On, Off }}\n\
+            #[derive(Serialize, Deserialize)]\npub struct Wrapper<'a> {{ pub text: &'a str, pub kind: r#Kind, pub mode: Option<r#Mode>, pub inner: Option<Inner<'a>>, pub buf: Buffer<16> }}\n\
+            #[derive(Serialize, Deserialize)]\npub struct Inner<'a> {{ pub s: &'a str }}\n#[derive(Serialize, Deserialize)]\npub struct Buffer<const N: usize> {{ pub used: u32 }}\n\
+            #[tauri::command]\npub fn wrap(w: Wrapper<'_>, k: r#Kind, b: Buffer<8>) -> Wrapper<'static> {{ todo!() }}\n", HDR);
+        let dir = root.join("rawtypes/src");
+        write_files(&dir, &[("lib.rs".to_string(), src)]);
+        let tys = ["Kind", "Mode", "Wrapper", "Inner", "Buffer"];
+        for mode in ["none", "zod"] {
+            let files = generate(&dir, &root.join(format!("rawtypes/out_{}", mode)), mode);
+            rep.case("generated_files_are_lexically_wellformed", &format!("project=rawtypes mode={}", mode), &|| lexical_wellformed(files.as_ref().map_err(|e| e.clone())?));
+            rep.case("mentioned_project_types_are_declared", &format!("project=rawtypes mode={}", mode), &|| types_module_is_closed(files.as_ref().map_err(|e| e.clone())?, &tys));
+            rep.case("type_references_resolve", &format!("project=rawtypes mode={}", mode), &|| references_resolve(files.as_ref().map_err(|e| e.clone())?, &tys));
         }
     }
     // ============================================================ C09: project types behind Box / Rc / Arc: if the tool reads through the pointer it must also order the schemas
